@@ -152,7 +152,7 @@ def drain(order=('A', 'B')):
     return dict(buses=['A', 'B'], order=list(order), reals={'d1': D, 'd2': ['0', '1/10'], 't1': TI}, handlers=handlers, main=main, horizon=6)
 
 
-def forward_chain(n=3, order=None, topo='chain', second_event=False, slow=True, late=False, poll=False):
+def forward_chain(n=3, order=None, topo='chain', second_event=False, slow=True, late=False, poll=False, timeout=None):
     """forwarding over n buses: chain A->B->C, cycle (+C->A), diamond A->B, A->C, B->D, C->D."""
     names = ['A', 'B', 'C', 'D'][:n]
     if topo == 'chain':
@@ -182,6 +182,11 @@ def forward_chain(n=3, order=None, topo='chain', second_event=False, slow=True, 
         main += [['root', 'B', 'P', 'P2']]
     main += [['await', 'P1'], ['obs', 'after_await', 'P1']] + [['idle', b] for b in names] + [['obs_all', 'end']]
     cfg = dict(buses=names, order=list(order or names), reals=reals, handlers=handlers, forwards=fw, main=main, horizon=8)
+    if timeout:
+        from fractions import Fraction
+        cfg['timeouts'] = {'P1': timeout}
+        cfg['T'] = timeout
+        reals['d1'] = ['0', str(2 * Fraction(timeout) + Fraction(1, 10))]
     if late:
         cfg['late_handlers'] = [['A', '*', 'hLate', [['read_bus'], ['ret', 'late']]]]
     if poll:
@@ -360,7 +365,7 @@ def matrix1_rows(tier):
 # =========================================================================== feature matrix M2 (time-outs)
 M2_PH = ('sleep', 'await', 'await_first', 'ff', 'ff_await_later')
 M2_SECOND = ('none', 'sync_ret', 'sleep')
-M2_CH = ('ret', 'raise', 'sleep', 'two', 'two_raise_first', 'awaitG', 'ffG')
+M2_CH = ('ret', 'raise', 'sleep', 'two', 'two_raise_first', 'awaitG', 'ffG', 'awaitG_L')
 M2_GH = ('ret', 'two')
 
 
@@ -398,6 +403,12 @@ def matrix2(par, ph, second, ch, gh, T='1/4'):
         handlers.append(['A', 'C', 'hC', [['dispawait', 'A', 'G', 'G1'], ['sleep', 'd2'], ['ret', 'c']]])
     elif ch == 'ffG':
         handlers.append(['A', 'C', 'hC', [['disp', 'A', 'G', 'G1'], ['sleep', 'd2'], ['ret', 'c']]])
+    elif ch == 'awaitG_L':
+        # depth 4: C awaits G, G awaits X-typed leaf with two handlers (the second not started while the first sleeps)
+        handlers.append(['A', 'C', 'hC', [['dispawait', 'A', 'G', 'G1'], ['ret', 'c']]])
+        handlers.append(['A', 'G', 'hG', [['dispawait', 'A', 'X', 'X1'], ['sleep', 'd2'], ['ret', 'g']]])
+        handlers.append(['A', 'X', 'hX', [['sleep', 'd4'], ['ret', 'x']]])
+        handlers.append(['A', 'X', 'hX2', [['ret', 'x2']], {'sync': True}])
     if ch in ('awaitG', 'ffG'):
         handlers.append(['A', 'G', 'hG', [['sleep', 'd4'], ['ret', 'g']]])
         if gh == 'two':
@@ -426,6 +437,8 @@ def matrix2_rows(tier):
         (True, 'await', 'none', 'two', 'ret'),
         (False, 'ff_await_later', 'none', 'two_raise_first', 'ret'),
         (False, 'await_first', 'sync_ret', 'raise', 'ret'),
+        (False, 'await', 'none', 'awaitG_L', 'ret'),
+        (False, 'await_first', 'sync_ret', 'awaitG_L', 'ret'),
     ]
     rows = pairwise(doms, must)
     # gh only matters with grandchildren
